@@ -162,7 +162,7 @@ theorem processPrecommitTrace_ok (env : Env) (m : Machine) (v : Vote) (hi : MInv
         intro e he
         simp at he; rw [he]
         exact ⟨{ m with vc := vc2, lastQuorum := max m.lastQuorum v.height, lastTriggerSync := max m.lastQuorum v.height },
-          XMicro.silent _ _ _ rfl rfl rfl (by intro a ha; simp at ha; subst ha; trivial)⟩
+          XMicro.silent _ _ _ rfl rfl rfl (by intro a ha; simp at ha; rcases ha with ha | ha <;> subst ha <;> trivial)⟩
       · exact processMessageTrace_ok env { m with vc := vc2 } v.height v.round (.precommit v) hst hi2
     · exact processMessageTrace_ok env { m with vc := vc } v.height v.round (.precommit v) hst hi1
 
